@@ -115,7 +115,7 @@ inductive Out (α : Type) where
   | ok (a : α)
   | exn (e : Exn)
   | abort (why : String)       -- a failing `assert` (asserts flavour only)
-  deriving Repr
+  deriving Repr, DecidableEq
 
 structure St (σ ω : Type) where
   g : Glue
@@ -264,6 +264,17 @@ def tlsRead (C : Cfg) (W : World ω) (E : Engine σ) (s : St σ ω) (size : Nat)
   | (.exn e, s') => (.exn e, s')
   | (.abort m, s') => (.abort m, s')
 
+/-- the `res <= 0` branch of a round of `Write`: `pendingSend = remaining` was just set; `HandleResult` decides
+whether to go round again with the same bytes -/
+def writeRetry (C : Cfg) (W : World ω) (i' : Nat) (rest : Bytes) (s2 : St σ ω) (ans : SslAns) : Next × St σ ω :=
+  match handleResult W s2 ans with
+  | (.exn e, s3) => (.stop (.exn e), s3)
+  | (.abort m, s3) => (.stop (.abort m), s3)
+  | (.ok false, s3) => (.stop (.ok rest), s3)
+  | (.ok true, s3) =>
+    if i' = 0 ∧ C.asserts then (.stop (.abort "assert(i < handshakeStepsMax) in Write"), s3)
+    else (.again i' rest, s3)
+
 /-- one round of the loop of `Write(data, size)`: `rest` (non-empty) is the unsent suffix, `i'` rounds are
 left after this one.  Since e3dfab5 a successful partial write makes the full budget available again. -/
 def writeRound (C : Cfg) (W : World ω) (E : Engine σ) (i' : Nat) (rest : Bytes) (s : St σ ω) : Next × St σ ω :=
@@ -281,15 +292,7 @@ def writeRound (C : Cfg) (W : World ω) (E : Engine σ) (i' : Nat) (rest : Bytes
         if 0 < k ∧ C.fixRoundReset then (.again C.stepsMax (rest.drop k), s2)   -- `i = 0;` then `++i`
         else if i' = 0 ∧ C.asserts then (.stop (.abort "assert(i < handshakeStepsMax) in Write"), s2)
         else (.again i' (rest.drop k), s2)
-      | _ =>
-        let s2 := setPending s1 rest
-        match handleResult W s2 ans with
-        | (.exn e, s3) => (.stop (.exn e), s3)
-        | (.abort m, s3) => (.stop (.abort m), s3)
-        | (.ok false, s3) => (.stop (.ok rest), s3)
-        | (.ok true, s3) =>
-          if i' = 0 ∧ C.asserts then (.stop (.abort "assert(i < handshakeStepsMax) in Write"), s3)
-          else (.again i' rest, s3)
+      | _ => writeRetry C W i' rest (setPending s1 rest) ans
 
 /-- the measure of the write loop: bytes left, then rounds left -/
 def roundDecreases (rest : Bytes) (i' : Nat) (rest' : Bytes) (j : Nat) : Prop :=
@@ -383,6 +386,29 @@ def driverPending (C : Cfg) (W : World ω) (E : Engine σ) (s : St σ ω) : Out 
     | (.exn e, s') => (.exn e, s')
     | (.abort m, s') => (.abort m, s')
 
+/-! ### histories of calls on one (synchronous or driver-operated) TLS socket -/
+
+inductive Op where
+  | recvT (size : Nat) (timeout : Int)     -- Receive(data, size, timeout)
+  | recvReadable (size : Nat)              -- Receive(data, size)   [driver: readable]
+  | sendT (data : Bytes) (timeout : Int)   -- Send(data, size, timeout)
+  | sendWritable (data : Bytes)            -- SendSome(data, size)  [driver: writable]
+  | query (pollOut : Bool)                 -- DriverQuery(events)
+  | pending                                -- DriverPending()
+  deriving Repr
+
+/-- perform one call; only the state is kept (results are the business of the per-call theorems) -/
+def apply (C : Cfg) (W : World ω) (E : Engine σ) (s : St σ ω) : Op → St σ ω
+  | .recvT n t => (receiveT C W E s n t).2
+  | .recvReadable n => (receiveReadable C W E s n).2
+  | .sendT d t => (sendT C W E s d t).2
+  | .sendWritable d => (sendSomeWritable C W E s d).2
+  | .query po => (driverQuery E s po).2
+  | .pending => (driverPending C W E s).2
+
+def run (C : Cfg) (W : World ω) (E : Engine σ) (s : St σ ω) (ops : List Op) : St σ ω :=
+  ops.foldl (apply C W E) s
+
 /-! ### the asynchronous socket on top (src/socket_async_impl.cpp, src/driver_impl.cpp), as far as
 the TLS glue is concerned: the send queue, the POLLOUT bit of the socket's `pollfd`, the handlers -/
 
@@ -464,5 +490,19 @@ def aTask (C : Cfg) (W : World ω) (E : Engine σ) (rxSize : Nat) (x : ASt σ ω
   else if rev.wr ∧ x.a.pollOut then aWritable C W E x
   else if rev.hupErr then (.ok (), aDisconnect x)
   else (.ok (), x)
+
+/-- events in the life of an asynchronous TLS socket: the user enqueues a buffer; the driver steps
+(`DriverQuery`, `poll`, then at most one task for what `poll` reported) -/
+inductive AEv where
+  | enq (buf : Bytes)
+  | step (rev : REvents)
+  deriving Repr
+
+def aApply (C : Cfg) (W : World ω) (E : Engine σ) (rxSize : Nat) (x : ASt σ ω) : AEv → ASt σ ω
+  | .enq buf => enqueue x buf
+  | .step rev => (aTask C W E rxSize (aQuery E x) rev).2
+
+def aRun (C : Cfg) (W : World ω) (E : Engine σ) (rxSize : Nat) (x : ASt σ ω) (evs : List AEv) : ASt σ ω :=
+  evs.foldl (aApply C W E rxSize) x
 
 end SockModel.Tls
